@@ -1,7 +1,8 @@
 (* Properties_C18.v -- C18: composite preconditioners realise their block formulas.
    Statements only; proofs: CompositeProofs.v.  Inner solvers are abstract functions. *)
 From Amgcl Require Import Scalar QcInst Vec Crs Kernels KernelsProofs MatOps Adapters Composite CompositeProofs CompositeProofs2
-  CompositeProofs3 CompositeProofs4 CompositeProofs5 CompositeExamples.
+  CompositeProofs3 CompositeProofs4 CompositeProofs5 CompositeExamples
+  Cpr CprProofs CprProofs2 CprProofs3 CprProofs4 CprProofs5 CprProofs6.
 Local Open Scope S_scope.
 
 Section Ring.
@@ -56,9 +57,12 @@ Theorem C18_cpr_apply_formula (A Fpp Scatter : crs S) (sprecond pprecond : vec S
 Proof. exact (cpr_apply_formula A Fpp Scatter sprecond pprecond f). Qed.
 End Ring.
 
-(* pmask_pattern "%start:stride": a stride parsed as 0 makes the mask loop diverge -- refutes
-   "for every pressure mask ... pattern strings" for starts of two or more digits
-   (schur_pressure_correction.hpp:131-137; replayed under a timeout by tools/props/C18.py) *)
+(* pmask_pattern "%start:stride": a stride of 0 makes the mask loop  for(i = start; i < n; i += stride)
+   diverge.  The original parser read the stride at the fixed string offset 3, so every start
+   of two or more digits gave stride 0 (finding C18-pmask-pattern-two-digit-start, repaired in
+   /repo 35704c5: the pattern is split at ':' and stride <= 0 is rejected by precondition()).
+   The theorem records why that guard is needed; tools/props/C18.py drives well-formed two-digit
+   patterns as ordinary cases and malformed ones expecting the exception *)
 Theorem C18_pattern_stride0_refuted fuel n start (mask : list bool) :
   start < n -> pattern_loop fuel n 0 start mask = None.
 Proof. exact (pattern_stride0_never_terminates fuel n start mask). Qed.
@@ -69,8 +73,8 @@ Theorem C18_pattern_terminates fuel n stride start (mask : list bool) :
 Proof. exact (pattern_terminates fuel n stride start mask). Qed.
 Print Assumptions C18_pattern_terminates.
 
-(* A1 (partial): the gather (x2u, x2p) and scatter (u2x, p2x) operators of every mask are
-   inverse to each other (any Scalar); the full reassembly identity is in the comment below *)
+(* A1 (part; the full reassembly identity is C18_reassemble below): the gather (x2u, x2p) and
+   scatter (u2x, p2x) operators of every mask are inverse to each other (any Scalar) *)
 Theorem C18_scatter_gather_partial (S : Scalar) (mask : list bool) (x : vec S) : length x = length mask ->
   scatter_up mask (gather mask false x) (gather mask true x) = x.
 Proof. exact (scatter_gather mask x). Qed.
@@ -295,3 +299,127 @@ Example C18_schur_type1_hyps_satisfiable :
   (forall v, length v = nu -> solveU (mv Kuu v) = v) /\
   (forall v, length v = np -> schur_op adjust_p Kpp Kup Kpu L solveU (solveS v) = v).
 Proof. exact schur_type1_hyps_satisfiable. Qed.
+
+(* ------------------------------------------------------------------------------------ *)
+(* A3: the CPR set-up (Cpr.v: first_scalar_pass, init for scalar and block value types,
+   invert, partial_update), tied digit for digit to preconditioner::cpr by the harness. *)
+
+(* partial_update(K, true) with the matrix the preconditioner was built from gives back the
+   same operators Fpp, Scatter, App -- as terms, for every Scalar, every K (any listing order:
+   the constructor and partial_update sort their copies) and every content of the
+   uninitialised fpp->val array: the action is unchanged *)
+Theorem C18_cpr_partial_update_same (S : Scalar) B active (K : crs S) (junk : vec S) : 0 < B ->
+  cpr_partial_update B active (cpr_make B active K junk) K true junk = cpr_make B active K junk.
+Proof. exact (cpr_partial_update_same B active K junk). Qed.
+Print Assumptions C18_cpr_partial_update_same.
+
+Section Ring3.
+Variable S : Scalar.
+Hypothesis Srt : Sring S.
+
+(* the pressure matrix is the weighting of the pressure columns of the active part of K by the
+   weights d_ip (= Fpp) of the block rows:  App[ip][jp] = sum_{i<B} d_ip[i] * K[ip*B+i][jp*B]
+   -- for EVERY user matrix (rows in any order, duplicates add up), N = active_rows or n a
+   multiple of B *)
+Theorem C18_cpr_App_is_weighting B np (K : crs S) (junk : vec S) active ip jp : 0 < B ->
+  cpr_N (nrows K) active = (np * B)%nat -> ip < np -> jp < np ->
+  mget (c_app (cpr_make B active K junk)) ip jp
+  = sumn (fun i => vget (cpr_weights B (np * B) (sort_rows K) true junk ip) i * mget K (ip * B + i) (jp * B)) B.
+Proof. exact (cpr_make_App_dense Srt B np K junk active ip jp). Qed.
+
+(* on rows strictly sorted by column the weights are invert(D^T), D the dense diagonal block
+   (which must be structurally present; otherwise the weights are uninitialised memory) *)
+Theorem C18_cpr_weights_are_invert_of_diagonal_block B np (K : crs S) (junk : vec S) ip : 0 < B -> ip < np ->
+  Forall (fun r => sorted_strict r = true) (rows K) ->
+  (exists i, i < B /\ Exists (in_block B ip) (nth (ip * B + i) (rows K) [])) ->
+  cpr_weights B (np * B) K true junk ip
+  = cpr_invert B (DirectUtil.tabulate (B * B) (fun idx => mget K (ip * B + idx mod B) (ip * B + idx / B)))
+                 (firstn B (skipn (ip * B) junk)).
+Proof. exact (cpr_weights_spec Srt B np K junk ip). Qed.
+
+(* scalar input with block_size B and its B x B block view (adapter::block_matrix) give the
+   same operator: Fpp and Scatter are equal as terms, App densely, hence the two-stage operator
+   for every pressure preconditioner that depends on the dense content of App only
+   (real value types: adjoint = identity) *)
+Hypothesis sadj_id : forall x : S, sadj x = x.
+Theorem C18_cpr_block_scalar_same_operator (B nb : nat) (K : crs S) (junk : vec S)
+    (sprecond : vec S -> vec S) (pprecond : crs S -> vec S -> vec S) (f : vec S) :
+  0 < B -> nrows K = (nb * B)%nat ->
+  Forall (fun r => sorted_strict r = true) (rows K) ->
+  (forall ip, ip < nb -> has_block B ip (cpr_block_rows B K ip)) ->
+  (forall A1 A2 : crs S, nrows A1 = nrows A2 -> ncols A1 = ncols A2 ->
+     (forall i j, i < nrows A1 -> j < ncols A1 -> mget A1 i j = mget A2 i j) -> pprecond A1 = pprecond A2) ->
+  cpr_operator K (cprb_setup B 0 (to_gcrs (block_adapter B (crs_view K))) junk) sprecond pprecond f
+  = cpr_operator K (cpr_setup B 0 K junk) sprecond pprecond f.
+Proof. exact (cpr_block_scalar_operator Srt sadj_id B nb K junk sprecond pprecond f). Qed.
+End Ring3.
+
+Section Field3.
+Variable S : Scalar.
+Hypothesis Sft : Sfield S.
+
+(* invert(): in-place LU without pivoting + the two triangular solves returns the first column of
+   the inverse, for EVERY block size, whenever no pivot vanishes (the C++ assert): V y = e_0 *)
+Theorem C18_cpr_invert_correct (B : nat) (V y0 : vec S) :
+  length V = (B * B)%nat -> length y0 = B -> cpr_pivots_ok B V ->
+  forall j, j < B -> mat_row_dot B V (cpr_invert B V y0) j = if Nat.eqb j 0 then s1 else s0.
+Proof. exact (cpr_invert_ok_all Sft B V y0). Qed.
+
+(* the weights of block row ip are the FIRST ROW OF THE INVERSE of the diagonal block
+   D[i][j] = K[ip*B+i][ip*B+j]:  sum_i d[i] * D[i][j] = delta_{0j} *)
+Theorem C18_cpr_weights_first_row_of_inverse B np (K : crs S) (junk : vec S) ip : 0 < B -> ip < np ->
+  Forall (fun r => sorted_strict r = true) (rows K) ->
+  (exists i, i < B /\ Exists (in_block B ip) (nth (ip * B + i) (rows K) [])) ->
+  np * B <= length junk ->
+  cpr_pivots_ok B (DirectUtil.tabulate (B * B) (fun idx => mget K (ip * B + idx mod B) (ip * B + idx / B))) ->
+  forall j, j < B ->
+  sumn (fun i => vget (cpr_weights B (np * B) K true junk ip) i * mget K (ip * B + i) (ip * B + j)) B
+  = if Nat.eqb j 0 then s1 else s0.
+Proof. intros H1 H2. exact (cpr_weights_first_row Sft B np K junk ip H1 H2 (cpr_invert_ok_all Sft B)). Qed.
+End Field3.
+
+(* closed at the exact rationals *)
+Theorem C18_cpr_App_is_weighting_Qc B np (K : crs QcS) (junk : vec QcS) active ip jp : 0 < B ->
+  cpr_N (nrows K) active = (np * B)%nat -> ip < np -> jp < np ->
+  mget (c_app (cpr_make B active K junk)) ip jp
+  = sumn (fun i => vget (cpr_weights B (np * B) (sort_rows K) true junk ip) i * mget K (ip * B + i) (jp * B)) B.
+Proof. exact (C18_cpr_App_is_weighting QcS QcS_ring B np K junk active ip jp). Qed.
+Print Assumptions C18_cpr_App_is_weighting_Qc.
+
+Theorem C18_cpr_weights_first_row_of_inverse_Qc B np (K : crs QcS) (junk : vec QcS) ip : 0 < B -> ip < np ->
+  Forall (fun r => sorted_strict r = true) (rows K) ->
+  (exists i, i < B /\ Exists (in_block B ip) (nth (ip * B + i) (rows K) [])) ->
+  np * B <= length junk ->
+  cpr_pivots_ok B (DirectUtil.tabulate (B * B) (fun idx => mget K (ip * B + idx mod B) (ip * B + idx / B))) ->
+  forall j, j < B ->
+  sumn (fun i => vget (cpr_weights B (np * B) K true junk ip) i * mget K (ip * B + i) (ip * B + j)) B
+  = if Nat.eqb j 0 then s1 else s0.
+Proof. exact (C18_cpr_weights_first_row_of_inverse QcS QcS_field B np K junk ip). Qed.
+Print Assumptions C18_cpr_weights_first_row_of_inverse_Qc.
+
+Theorem C18_cpr_invert_correct_Qc (B : nat) (V y0 : vec QcS) :
+  length V = (B * B)%nat -> length y0 = B -> cpr_pivots_ok B V ->
+  forall j, j < B -> mat_row_dot B V (cpr_invert B V y0) j = if Nat.eqb j 0 then s1 else s0.
+Proof. exact (C18_cpr_invert_correct QcS QcS_field B V y0). Qed.
+Print Assumptions C18_cpr_invert_correct_Qc.
+
+Theorem C18_cpr_block_scalar_same_operator_Qc (B nb : nat) (K : crs QcS) (junk : vec QcS)
+    (sprecond : vec QcS -> vec QcS) (pprecond : crs QcS -> vec QcS -> vec QcS) (f : vec QcS) :
+  0 < B -> nrows K = (nb * B)%nat ->
+  Forall (fun r => sorted_strict r = true) (rows K) ->
+  (forall ip, ip < nb -> has_block B ip (cpr_block_rows B K ip)) ->
+  (forall A1 A2 : crs QcS, nrows A1 = nrows A2 -> ncols A1 = ncols A2 ->
+     (forall i j, i < nrows A1 -> j < ncols A1 -> mget A1 i j = mget A2 i j) -> pprecond A1 = pprecond A2) ->
+  cpr_operator K (cprb_setup B 0 (to_gcrs (block_adapter B (crs_view K))) junk) sprecond pprecond f
+  = cpr_operator K (cpr_setup B 0 K junk) sprecond pprecond f.
+Proof. exact (C18_cpr_block_scalar_same_operator QcS QcS_ring (fun x => eq_refl) B nb K junk sprecond pprecond f). Qed.
+Print Assumptions C18_cpr_block_scalar_same_operator_Qc.
+
+(* NOT THEOREMS (the unchanged code violates them, or nothing is stated):
+   A3-block+active  for active_rows < n the block-valued construction does NOT agree with the scalar
+              one: the implementation (and the faithful model cprb_setup) keep the column indices
+              >= active_rows in App -- known findings C18-cpr-block-active-rows-illformed-pressure-matrix,
+              C18-cpr_drs-block-active-rows-illformed-pressure-matrix.
+   cpr_drs    (CprDrs.v) is tied by correspondence and by an independent evaluation of the dynamic
+              row sum rule (tools/props/C18.py drs_spec); no theorem is stated about it.  Its
+              partial_update crashes (known finding C18-cpr_drs-partial-update-null-App). *)
